@@ -550,6 +550,8 @@ PrinterPtr Printer::create() noexcept
 
 std::string Printer::printModel(const ModelPtr &model, bool autoIds)
 {
+    pFunc()->removeAllIssues();
+
     if (model == nullptr) {
         return "";
     }
